@@ -536,7 +536,7 @@ func (svr *Server) getSession(svc *service, req *message.ConnectMessage, resp *m
 	// If found, return it.
 	if !req.CleanSession() {
 		// Only state kept from a CleanSession=0 connection can be resumed.
-		if sess, err := svr.sessMgr.Get(cid); err == nil && !sess.Cmsg.CleanSession() {
+		if sess, err := svr.sessMgr.Get(cid); err == nil && sess.Resumable() {
 			svc.sess = sess
 			resp.SetSessionPresent(true)
 
